@@ -75,6 +75,8 @@ def build(desc):
         for k_ in ('frequency', 'start', 'end'):
             if k_ in s:
                 d['params'][k_] = s[k_]
+        if s.get('preset'):        # a description that already carries the entry decode injects: the injected one wins
+            d['params']['model'] = None
         if s['pre']:
             d['pre_system_init'] = {'func': 'hook', 'module': sm, 'params': {'name': f'pre_sys{k}'}}
         if s['post']:
@@ -83,6 +85,9 @@ def build(desc):
     for k, g in enumerate(desc['groups']):
         gm = 'replayers.dmod_' + g['mod']
         d = {'name': 'DAgent', 'module': gm, 'number': g['n'], 'params': {'prefix': f'g{k}_'}}
+        if g.get('preset'):
+            d['params']['agent_index'] = 7
+            d['params']['model'] = None
         if g['pre']:
             d['pre_agent_init'] = {'func': 'hook', 'module': gm, 'params': {'name': f'pre_grp{k}'}}
         if g['post']:
@@ -186,7 +191,7 @@ def _desc(rng):
                                             {'frequency': rng.randint(1, 3), 'start': rng.randint(0, 2),
                                              'end': rng.randint(0, 4)}])) for k in range(rng.randint(0, 3))],
                 groups=[dict(n=rng.choice([0, 0, 1, 2, 3]), pre=rng.random() < 0.5, post=rng.random() < 0.5,
-                             mod=rng.choice('ab')) for _ in range(rng.randint(0, 3))])
+                             mod=rng.choice('ab'), preset=rng.random() < 0.2) for _ in range(rng.randint(0, 3))])
 
 
 def histories(seed, budget, prop='C18'):
@@ -200,6 +205,9 @@ def histories(seed, budget, prop='C18'):
                                           dict(id='win', prio=1, pre=False, post=False, mod='a', start=2, end=5, frequency=3),
                                           dict(id='neg', prio=1, pre=False, post=False, mod='b', start=-1, end=-1)])])
     yield ('decode', [dict(pre=False, post=False, mod='a', systems=[], groups=[])])
+    yield ('decode', [dict(full, systems=[dict(id='s0', prio=1, pre=True, post=True, mod='a', preset=True)],
+                           groups=[dict(n=3, pre=True, post=True, mod='a', preset=True),
+                                   dict(n=2, pre=False, post=False, mod='b', preset=True)])])
     other = dict(full, mod='b', systems=[dict(s, mod='b') for s in full['systems']],
                  groups=[dict(g, mod='b') for g in full['groups']])
     yield ('decode', [full, other, full])
